@@ -17,6 +17,8 @@ VTYPES = {
     "t24": ("cv::Triv<24,8>", 24, 8, True),
     "t16": ("cv::Triv<16,8>", 16, 8, True),
     "t8a4": ("cv::Triv<8,4>", 8, 4, True),
+    "b8": ("bool", 1, 1, True),
+    "i32": ("std::int32_t", 4, 4, True),
     "obj": ("cv::Obj", 8, 8, False),
     "obj4": ("cv::Obj4", 4, 4, False),
     "objtd": ("cv::ObjTD", 8, 8, False),
